@@ -255,6 +255,8 @@ class MergeFlow(Engine):
         self.check_frame(st, node, 'setitem', parent, node_)
         self.check_share(st, node, 'setitem', parent, node_)
         self.root_op(st, 'setitem', parent, node_)
+        if isinstance(idx, Ref):
+            st.mon['setidx'] = (st.mon.get('setidx') or ()) + (idx.sym,)
         self.mark_mutation(st, node, 'setitem', parent)
         if entry is not None and entry.kind == 'fresh' and entry.anchor in st.heap:
             self.bump(st, Ref('elem', entry.anchor), -1)
@@ -562,6 +564,11 @@ class MergeFlow(Engine):
         lst = {}
         for descr, op in (s.mon.get('lstops') or ()):
             lst.setdefault(descr, []).append(op)
+        if kind == 'SWAP' and s.mon.get('mutated'):
+            used = s.mon.get('setidx') or ()
+            if used and (len(used) != 2 or len(set(used)) != 2):
+                self.find_at_merge('SWAP-EXCHANGE', f'{len(used)} item assignments through {len(set(used))} distinct positions',
+                                   'a swap must assign each of the two looked-up positions exactly once (each element to the other\'s position)')
         if kind in ('MOVE', 'SWAP'):
             for descr, ops in sorted(lst.items()):
                 if 'mixed' in ops or ops.count('remove') != ops.count('insert'):
@@ -579,6 +586,12 @@ class MergeFlow(Engine):
             for descr, d in sorted(set(deltas)):
                 if d > 0:
                     self.find_at_merge('CONSERVE', f'{descr}: net {d:+d}', 'a delete must not add nodes')
+        elif kind in ('REPLACE', 'SEND') and s.mon.get('mutated'):
+            removed = [x for x in deltas if x[1] < 0]
+            added = [x for x in deltas if x[1] > 0]
+            if len(removed) != 1 or removed[0][1] != -1 or added:
+                self.find_at_merge('CONSERVE', f'running-order nodes removed {sorted(set(removed))} / re-added {sorted(set(added))}',
+                                   'a replace/send merge removes exactly the addressed element (once) and re-inserts no running-order node')
         if s.mon.get('itlog'):
             pass
 
